@@ -1269,7 +1269,33 @@ pub fn family_input(fam: usize, size: usize) -> Option<(Kind, u8, usize, Vec<u8>
             v.extend_from_slice(b"\r\n");
             (Kind::Req, 16 | 64, 8, v)
         }
+        12 => {
+            // unterminated chunk extension (no CR anywhere): Partial
+            v.extend_from_slice(b"1a ;");
+            fill(&mut v, b"ext=aaaaaaaaaaaa;", body);
+            (Kind::Chunk, 0, 0, v)
+        }
+        13 => {
+            // one ignored line: invalid byte, a long valid run, a second invalid byte
+            v.extend_from_slice(b"HTTP/1.1 200 OK\r\nA: \x7f");
+            fill(&mut v, b"xxxxxxxx", body);
+            v.extend_from_slice(b"\x7f\r\nB: 1\r\n\r\n");
+            (Kind::Resp, 32, 8, v)
+        }
+        14 => {
+            // the same, cut before the second invalid byte: Partial inside the ignored line
+            v.extend_from_slice(b"GET / HTTP/1.1\r\nA: \x01");
+            fill(&mut v, b"xxxxxxxx", body);
+            (Kind::Req, 64, 8, v)
+        }
+        15 => {
+            // a long run of delimiter spaces under the multi-space options
+            v.extend_from_slice(b"HTTP/1.1 200 ");
+            fill(&mut v, b"        ", body);
+            v.extend_from_slice(b"OK\r\n\r\n");
+            (Kind::Resp, 8, 8, v)
+        }
         _ => return None,
     })
 }
-pub const FAMILIES: usize = 12;
+pub const FAMILIES: usize = 16;
